@@ -171,7 +171,10 @@ class Tracker:
         el = inv.LD(sim.t) - inv.LD(self.t0)
         fam = self.fam
         stages = self.ops
-        n_ops = n * stages
+        # rounding of many sub-steps accumulates like a random walk; linear growth is kept up to 48 operations per
+        # step and square-root growth beyond (EOS with n=8 and 17x17 stages has 2312 kicks per step: a linear allowance
+        # would hide a real momentum leak of 1e-12 per step)
+        n_ops = n * (stages if stages <= 48 else 48.0 * math.sqrt(stages / 48.0))
         msum = float(abs(a[:, inv.M]).sum())
         # --- linear momentum
         Psc = max(float(i0["Psc"]), float(i1["Psc"]), getattr(self, "Psc_path", 0.0))
@@ -349,6 +352,20 @@ conserve_case = st.one_of(
         "dt_frac": S.logfloats(2e-3, 0.03), "back": st.booleans(), "boost": boost, "gravity": GRAVITY, "janus_scales": JANUS_SCALES,
         "ops": st.lists(op, min_size=3, max_size=8)}),
 )
+
+
+# "conserve_short": the same check on many short histories of heavy multi-planet systems.  Pair terms that fail to
+# cancel scale with m^2 dt^k and show within a step or two, but only for particular option values (one EOS kernel,
+# one coordinate system with one gravity routine, ...): this sub buys lattice coverage (3000 configurations, planets
+# of 1e-5..1e-3 stellar masses, 4-5 bodies, steps of 0.01-0.05 periods) for little time.
+short_op = st.one_of(st.tuples(st.just("steps"), st.integers(1, 6)),
+                     st.tuples(st.just("integrate"), S.floats(0.5, 6.0), st.sampled_from([0, 1])),
+                     st.tuples(st.just("sync")))
+short_case = st.fixed_dictionaries({
+    "system": S.hierarchical_system(nmin=4, nmax=5, mass_lo=1e-5, mass_hi=1e-3),
+    "cfg": st.one_of(ANY_CFG, ANY_CFG, S.eos_config()),
+    "dt_frac": S.logfloats(0.01, 0.05), "back": st.booleans(), "boost": boost, "gravity": GRAVITY,
+    "janus_scales": JANUS_SCALES, "ops": st.lists(short_op, min_size=2, max_size=4)})
 
 
 def eps_mass_of(parts):
@@ -812,6 +829,7 @@ def run_mirror(case, ctx):
 def subs(tier):
     out = [
         Sub("conserve", run_conserve, strategy=conserve_case, quick=2000, thorough=40000, shards_quick=8, shards_thorough=16),
+        Sub("conserve_short", run_conserve, strategy=short_case, quick=3000, thorough=100000, shards_quick=4, shards_thorough=16),
         Sub("merge", run_merge, strategy=merge_case, quick=600, thorough=40000, shards_quick=4, shards_thorough=16),
         Sub("mirror", run_mirror, strategy=mirror_case, quick=320, thorough=12000, shards_quick=4, shards_thorough=16),
         Sub("diagnostics", run_diag, strategy=diag_case, quick=3000, thorough=200000, shards_quick=2, shards_thorough=8),
